@@ -23,7 +23,8 @@ RULE = ("related pairs of addresses: the second is derived from the first by nar
         "member-in-group. judged = monitor evaluations at the tapped methods; distinct non-trivial = (method, classes, "
         "platform, relation, k of both sides, spelling forms)"
         " Round 5: member line re-assigned then the old text asked; group address re-assigned to a plain address."
-        " Rounds 6-7: non-contiguous members in NX-OS groups.")
+        " Rounds 6-7: non-contiguous members in NX-OS groups."
+        " Round 9: one 2^11 x 2^10 pair per run; groups nested three levels deep in a configuration.")
 ASSUMPTIONS = ["a TypeError for non-contiguous members in 'in' is a refusal, not an answer",
                "group-in-group and group-in-member are not stated by the property and are not judged"]
 
